@@ -301,6 +301,8 @@ func synthSPM() *tokSpec {
 		{"▁▁", -8}, {"▁a", -8}, {"ab", -9}, {"ba", -9}, {"aa", -10}, {"bb", -10}, {"aba", -8.5}, {"bab", -11}, {"aab", -9},
 		{"abab", -12}, {"▁ab", -9.5}, {"'s", -10}, {"ss", -10}, {"as", -10}, {"sa", -10}, {"11", -10}, {"111", -9}, {"▁B", -11}, {"Ba", -11},
 		{"!!", -11}, {"éé", -12}, {"a▁", -12}, {"▁▁▁", -12}, {"▁▁▁▁", -7.5}, {"\n\n\n", -12}, {"a\n", -13}, {"中中", -13}, {"baba", -9}, {"abba", -13},
+		// pieces that let the merge loop assemble the text "<0x41>" step by step
+		{"<0", -14}, {"x4", -14}, {"1>", -14}, {"<0x4", -15},
 	}
 	for _, p := range pieces {
 		add(p.t, model.TOKEN_TYPE_NORMAL, p.s)
